@@ -110,8 +110,11 @@ macro_rules! anykey_stubs {
     };
 }
 
-/// threshold 1: the single share recovers exactly the message (real interpolation with
-/// the C07 field laws; `Sharks::recover`'s selection logic by its Engine-M-proved model)
+/// threshold 1: the single share recovers exactly the message.  The Shamir layer is replaced
+/// by "returns the honest key K||0" (that a threshold-1 share carries K||0 as its value is
+/// `c16_structure_*_t1`; that `Sharks::recover` hands that value back for t = 1 is Engine M's
+/// recover-structure + `c06_interpolate_t1`): with the real `interpolate` in the same harness
+/// CBMC ran out of 50 GB.
 fn recover_t1(ml: usize, rl: usize) {
     let m: [u8; 8] = kani::any();
     let r: [u8; 8] = kani::any();
@@ -130,9 +133,9 @@ fn recover_t1(ml: usize, rl: usize) {
     kani::cover!(true, "reached");
     core::mem::forget((v, c, got));
 }
-rec_stubs! { #[kani::unwind(5)] fn c16_recover_t1_m1_r1() { recover_t1(1, 1) } }
-rec_stubs! { #[kani::unwind(5)] fn c16_recover_t1_m4_r0() { recover_t1(4, 0) } }
-rec_stubs! { #[kani::unwind(5)] fn c16_recover_t1_m0_r4() { recover_t1(0, 4) } }
+honestkey_stubs! { #[kani::unwind(5)] fn c16_recover_t1_m1_r1() { recover_t1(1, 1) } }
+honestkey_stubs! { #[kani::unwind(5)] fn c16_recover_t1_m4_r0() { recover_t1(4, 0) } }
+honestkey_stubs! { #[kani::unwind(5)] fn c16_recover_t1_m0_r4() { recover_t1(0, 4) } }
 
 /// a share made under a custom transcript is rejected by `recover` (default transcript)
 fn custom_transcript() {
@@ -147,7 +150,7 @@ fn custom_transcript() {
     kani::cover!(true, "reached");
     core::mem::forget((v, c));
 }
-rec_stubs! { #[kani::unwind(5)] fn c16_custom_transcript_rejected() { custom_transcript() } }
+honestkey_stubs! { #[kani::unwind(5)] fn c16_custom_transcript_rejected() { custom_transcript() } }
 
 /// threshold 0 never recovers: interpolation over zero shares fails and the error is
 /// propagated before anything is decrypted
@@ -276,7 +279,7 @@ adss_stubs! {
 /// threshold t in 1..=3: the Shamir layer is called with threshold t and receives at least
 /// min(t, #distinct points of the selection) distinct points — repeated or surplus reports
 /// never crowd out a distinct share, and the threshold is the recorded one
-fn selection3() {
+fn selection3(tc: u32) {
     let x0: [u64; 3] = kani::any();
     let x1: [u64; 3] = kani::any();
     let x2: [u64; 3] = kani::any();
@@ -284,6 +287,8 @@ fn selection3() {
     let t1: u32 = kani::any();
     let t2: u32 = kani::any();
     kani::assume(t >= 1 && t <= 3);
+    // tc != 0: the first share's threshold is this concrete value (keeps loops over it concrete)
+    let t = if tc != 0 { tc } else { t };
     let mk = |x: [u64; 3], t: u32| {
         adss::Share::verif_from_parts(t, star_sharks::Share { x: fp_from_limbs(x), y: Vec::new() }, Vec::new(), Vec::new(), [0u8; 64])
     };
@@ -312,4 +317,11 @@ fn selection3() {
 #[kani::stub(<adss::AccessStructure as core::ops::Drop>::drop, drop_noop_access)]
 #[kani::stub(<adss::Commune as core::ops::Drop>::drop, drop_noop_commune)]
 #[kani::unwind(6)]
-fn c01_selection_reaches_shamir_3() { selection3() }
+fn c01_selection_reaches_shamir_3() { selection3(0) }
+#[kani::proof]
+#[kani::stub(star_sharks::Sharks::recover, sharks_recover_record)]
+#[kani::stub(zeroize::optimization_barrier, barrier_noop)]
+#[kani::stub(<adss::AccessStructure as core::ops::Drop>::drop, drop_noop_access)]
+#[kani::stub(<adss::Commune as core::ops::Drop>::drop, drop_noop_commune)]
+#[kani::unwind(6)]
+fn c01_selection_reaches_shamir_3_t2() { selection3(2) }
